@@ -164,3 +164,48 @@ VENTRY(h_coarse_correction)
         for (int i = 0; i < n; i++) vcheck_eq(L0.solution()[i], u[i] + corr[i], "cycle(nu=0,3-levels)=u+P*M*R(f-Au)", i);
     }
 }
+
+// 4. "started from the exact solution of the extrapolated system the cycle returns it unchanged", with the exact solution in the
+// general sense: the EXTRAPOLATED residual 4/3 R_ex(f - A u) - 1/3 (f_c - A_c inject u) vanishes although f != A u.  u and f are
+// free, f_c := A_c inject u + 4 R_ex (f - A u) (built with operators constructed here).  Without smoothing every cycle type
+// on any number of levels must return u: whatever the coarser levels do, they start from zero with a zero right-hand side.
+// a: as above (nu1 = nu2 = 0 enforced)
+VENTRY(h_ex_zero_residual)
+{
+    alignas(GMGPolar) static unsigned char buf[sizeof(GMGPolar)];
+    VConfig c = config(a);
+    c.nu1 = 0; c.nu2 = 0;
+    GMGPolar* g = vmake_state(buf, c);
+    g->setup();
+    if (c.extrapolation == 3) g->full_grid_smoothing_ = a[9] != 0;
+    Level &L0 = g->levels_[0], &L1 = g->levels_[1];
+    const int n = L0.grid().numberOfNodes(), n1 = L1.grid().numberOfNodes();
+    const DomainGeometry& geo = *g->domain_geometry_;
+    const DensityProfileCoefficients& co = *g->density_profile_coefficients_;
+    std::vector<int> thr(g->levels_.size(), 1);
+    Interpolation I(thr, c.dirbc != 0);
+    std::unique_ptr<Residual> R0, R1;
+    if (c.strategy == 1) {
+        R0 = std::make_unique<ResidualTake>(L0.grid(), L0.levelCache(), geo, co, c.dirbc != 0, 1);
+        R1 = std::make_unique<ResidualTake>(L1.grid(), L1.levelCache(), geo, co, c.dirbc != 0, 1);
+    }
+    else {
+        R0 = std::make_unique<ResidualGive>(L0.grid(), L0.levelCache(), geo, co, c.dirbc != 0, 1);
+        R1 = std::make_unique<ResidualGive>(L1.grid(), L1.levelCache(), geo, co, c.dirbc != 0, 1);
+    }
+    Vector<double> u(n), f(n), w(n), rw(n1), uc(n1), zero1(n1), acu(n1), fc(n1);
+    for (int i = 0; i < n; i++) { u[i] = vsym("u", i, 0); f[i] = vsym("f", i, 0); }
+    R0->computeResidual(w, f, u);                         // w = f - A u
+    I.applyExtrapolatedRestriction(L0, L1, rw, w);
+    I.applyInjection(L0, L1, uc, u);
+    for (int i = 0; i < n1; i++) zero1[i] = 0.0;
+    R1->computeResidual(acu, zero1, uc);                  // acu = -A_c inject u
+    for (int i = 0; i < n1; i++) fc[i] = 4.0 * rw[i] - acu[i];
+    stale(g, 0);
+    for (int i = 0; i < n; i++) { L0.rhs()[i] = f[i]; L0.solution()[i] = u[i]; }
+    for (int i = 0; i < n1; i++) L1.rhs()[i] = fc[i];
+    vreach("setup-done");
+    run_cycle(g, c.cycle, true);
+    vreach("cycle-done");
+    for (int i = 0; i < n; i++) vcheck_eq(L0.solution()[i], u[i], "cycle(zero-extrapolated-residual)=identity", i);
+}
